@@ -25,6 +25,6 @@ theorem bed_readLines_length (n : Nat) (ls : List Bytes) (k : Nat) :
     plus one", BED reader of any width, every byte string. -/
 theorem bed_progress (n : Nat) (bs : Bytes) :
     (Bed.readAll n bs).length ≤ (lines bs).length + 1 :=
-  bed_readLines_length n (lines bs) 0
+  by simpa [Bed.trimmedLines, Bed.readAll] using bed_readLines_length n (Bed.trimmedLines bs) 0
 
 end Biogo.Properties.C03_feat
